@@ -9,7 +9,11 @@
 // schedules on the global and on every client's own blocked services (so that
 // "the client's own blocked-services settings, never the global ones" is
 // observed inside and outside the windows as the clock moves), and a map
-// reference model compared after every operation.
+// reference model compared after every operation.  Two or three registry
+// operations issued at the same time run as tasks of the seeded cooperative
+// scheduler (mode D; answers and registry must be those of one serial order),
+// and a restart rebuilds the registry from the configuration file that the
+// real configuration writer produced.
 package c04
 
 import (
